@@ -52,6 +52,7 @@ def run(chk):
     chk.extra["chains_replayed"] = len(cases)
 
     cmds, meta = [], []
+    by_chain = {json.dumps(c["chain"], sort_keys=True): c for c in cases}
 
     def add(ci, kind, src, arg=None, cmd="eval", extra=None):
         c = {"cmd": cmd, "id": len(cmds), "src": src}
@@ -93,6 +94,14 @@ def run(chk):
                 for f in NAMES:
                     add(ci, "get", f"local o = {S}; o.{f}", ("shared", f))
                 add(ci, "manifest", f"local o = {S}; o", "shared")
+            # history: the chain without its last layer is evaluated first (its own assertions run and are remembered),
+            # then the whole chain - late binding must still see the final object
+            if len(ch) >= 2 and not ch[-1]["omit"] and not any(l["omit"] for l in ch):
+                pc = by_chain.get(json.dumps(ch[:-1], sort_keys=True))
+                if pc is not None and pc["manifest"]["k"] == "obj":
+                    Pfx = obj_chain(ch[:-1], 0)
+                    Last = obj_chain(ch[-1:], 0)
+                    add(ci, "history", f"local p = {Pfx}; local o = p + {Last}; [p, o]", None)
             add(ci, "api", O, None, cmd="demand", extra={"demands": [{"f": "a"}, {"f": "b"}, {"f": "a"}, {"f": "zz"}]})
             # super reads from every (ordinary) layer
             P = obj_chain(ch, 0, probes=True)
@@ -132,6 +141,14 @@ def run(chk):
                     bad(exp, "manifestation differs from the visible fields of the object model")
             elif r["k"] != "err":
                 bad(m, "manifestation should fail (assertion or erroring visible field)")
+        elif kind == "history":
+            m = c["manifest"]
+            if m["k"] == "obj":
+                exp = {x["f"]: x["n"] for x in m["fs"]}
+                if not (r["k"] == "val" and common.json_equal(json.loads(r["out"])[1], exp)):
+                    bad(exp, "the composed object differs from the object model after its prefix was evaluated on its own")
+            elif r["k"] != "err":
+                bad(m, "the composed object should fail (assertion or erroring field) - also after its prefix was evaluated on its own")
         elif kind == "names":
             exp = {"has": [c["obs"][f]["vis"] == "visible" for f in NAMES], "hasAll": [c["obs"][f]["has"] for f in NAMES],
                    "hasEx": [c["obs"][f]["has"] for f in NAMES], "inn": [c["obs"][f]["has"] for f in NAMES],
